@@ -2421,7 +2421,10 @@ int case_compare (parse_node_t ** c1, parse_node_t ** c2) {
   if ((*c2)->kind == NODE_DEFAULT)
     return 1;
 
-  return (int)((*c1)->r.number - (*c2)->r.number);
+  /* case labels are 64-bit: their difference does not fit the int result */
+  if ((*c1)->r.number != (*c2)->r.number)
+    return ((*c1)->r.number < (*c2)->r.number) ? -1 : 1;
+  return 0;
 }
 
 int string_case_compare (parse_node_t ** c1, parse_node_t ** c2) {
@@ -2444,8 +2447,9 @@ int string_case_compare (parse_node_t ** c1, parse_node_t ** c2) {
 void prepare_cases (parse_node_t * pn, size_t start) {
   parse_node_t **ce_start, **ce_end, **ce;
   size_t end;
-  int last_key, this_key;
+  int64_t last_key, this_key; /* case labels are 64-bit integers */
   int direct = 1;
+#define FITS_DIRECT_TABLE(k) ((k) >= INT_MIN && (k) <= INT_MAX) /* the direct lookup table stores its base as a 32-bit int */
 
   ce_start = (parse_node_t **) & mem_block[A_CASES].block[start];
   end = mem_block[A_CASES].current_size;
@@ -2480,15 +2484,19 @@ void prepare_cases (parse_node_t * pn, size_t start) {
     }
   if ((*ce)->v.expr)
     {
-      last_key = (int)(*ce)->v.expr->r.number;
+      last_key = (*ce)->v.expr->r.number;
       direct = 0;
     }
   else
-    last_key = (int)(*ce)->r.number;
+    last_key = (*ce)->r.number;
+  if (!FITS_DIRECT_TABLE (last_key))
+    direct = 0;
   ce++;
   while (ce < ce_end)
     {
-      this_key = (int)(*ce)->r.number;
+      this_key = (*ce)->r.number;
+      if (!FITS_DIRECT_TABLE (this_key))
+        direct = 0;
       if (pn->kind == NODE_SWITCH_RANGES && this_key <= last_key)
         {
           char buf[1024];
@@ -2529,7 +2537,7 @@ void prepare_cases (parse_node_t * pn, size_t start) {
       (*(ce - 1))->l.expr = *ce;
       if ((*ce)->v.expr)
         {
-          last_key = (int)(*ce)->v.expr->r.number;
+          last_key = (*ce)->v.expr->r.number;
           direct = 0;
         }
       else
